@@ -165,7 +165,45 @@ def verdict_texts(texts, core, out=None):
 
 
 # ------------------------------------------------------------------ K1
+_CALC = {}
+
+
+def _model_relative_path(P):
+    """calculate_relative_path_for_internal_module for a SYMBOLIC target module: path arithmetic on components (the real
+    function asks os.path; nothing of the target exists on disk, so it treats the target as a module file)"""
+    if P.__name__ in _CALC or not P.__name__.startswith("sxi_"):
+        return
+    c15._patch(P)  # installs c15's own stub first; ours replaces it
+    rc = import_module(P.__name__ + ".context.render_context")
+    real = rc.RenderContext.calculate_relative_path_for_internal_module
+
+    def calc(self, target):
+        if not (is_sym(target) and not target.is_concrete()):
+            try:
+                return real(self, target.concrete() if is_sym(target) else target)
+            except hook.Unsupported:
+                raise
+        root = memfs.parse(self.package_root_for_generated_code)
+        cur = memfs.parse(self.current_file)
+        tparts = tuple(root) + tuple(_simp(x) for x in target.split("."))
+        if memfs.peq(tparts[:-1] + (tparts[-1] + ".py",), cur):
+            return None
+        rel = memfs.relpath_parts(tparts, cur[:-1])
+        level = 0
+        while level < len(rel) and isinstance(rel[level], str) and rel[level] == "..":
+            level += 1
+        rest = [x for x in rel[level:] if not (isinstance(x, str) and x == ".")]
+        out = "." * (level + 1)
+        for i, x in enumerate(rest):
+            out = out + ("." if i else "") + x
+        return out
+
+    rc.RenderContext.calculate_relative_path_for_internal_module = calc
+    _CALC[P.__name__] = True
+
+
 def _render_site(P, site, core, out=None):
+    _model_relative_path(P)
     kernel = c15.SITES[site][0]
     rc = import_module(P.__name__ + ".context.render_context")
     saved = c15._ctx
@@ -183,6 +221,7 @@ def _render_site(P, site, core, out=None):
 
 
 def _render_shape(P, body, resp, core, out=None):
+    _model_relative_path(P)
     rc = import_module(P.__name__ + ".context.render_context")
     real = rc.RenderContext
 
